@@ -723,6 +723,11 @@ class RefParser:
             return self.declaration_or_function(allow_function=False)
         return [self.statement()]
 
+    def label_body(self):
+        """the statement after a case / default label (grammar: label ':' statement; a run of pragmas before
+        that statement is held with it in a synthesized block, like in every sub-statement position)"""
+        return [self.substatement()]
+
     def substatement(self):
         """statement in if/while/for/do/switch/label position; a directly preceding run of
         pragmas is read as a block holding the pragmas and the statement (see interp.py)"""
@@ -730,7 +735,7 @@ class RefParser:
             prs = []
             while self.at("PPPRAGMA", "_PRAGMA"):
                 prs.append(self.pragma())
-            return ("compound", prs + [self.statement()])
+            return ("compound", PragmaWrap(prs + [self.statement()]))
         return self.statement()
 
     def statement(self):
@@ -745,11 +750,11 @@ class RefParser:
             self.take()
             e = self.constant_expression()
             self.expect("COLON")
-            return ("case", e, [self.substatement()])
+            return ("case", e, self.label_body())
         if kin(t, ("DEFAULT",)):
             self.take()
             self.expect("COLON")
-            return ("default", [self.substatement()])
+            return ("default", self.label_body())
         if kin(t, ("LBRACE",)):
             return self.compound_statement()
         if kin(t, ("SEMI",)):
@@ -770,7 +775,14 @@ class RefParser:
             self.expect("LPAREN")
             c = self.expression()
             self.expect("RPAREN")
-            return ("switch", c, regroup_switch(self.substatement()))
+            if self.at("PPPRAGMA", "_PRAGMA"):
+                # pragmas between the ')' and the body "appear at their own position without otherwise changing the
+                # tree": the body is still the switch block and is grouped under its labels
+                prs = []
+                while self.at("PPPRAGMA", "_PRAGMA"):
+                    prs.append(self.pragma())
+                return ("switch", c, ("compound", PragmaWrap(prs + [regroup_switch(self.statement())])))
+            return ("switch", c, regroup_switch(self.statement()))
         if kin(t, ("WHILE",)):
             self.take()
             self.expect("LPAREN")
@@ -1076,6 +1088,10 @@ class RefParser:
         raise RefReject("expression expected")
 
 
+class PragmaWrap(list):
+    """items of a block that was not written: pragmas + the statement they precede in a sub-statement position"""
+
+
 def regroup_switch(body):
     """The property's description of a switch body: every statement ends up under the nearest
     preceding case/default label in source order, consecutive labels kept as siblings."""
@@ -1093,6 +1109,12 @@ def regroup_switch(body):
                 if inner is not None and inner[0] in ("case", "default") and len(stmts) == 1:
                     out.append(cur[:-1] + ([],))
                     cur = inner
+                    continue
+                if (inner is not None and len(stmts) == 1 and inner[0] == "compound" and isinstance(inner[1], PragmaWrap)
+                        and inner[1][-1][0] in ("case", "default")):
+                    # case 1: <pragmas> case 2: ...  - the labels stay siblings, the pragmas are the first label's statements
+                    out.append(cur[:-1] + (list(inner[1][:-1]),))
+                    cur = inner[1][-1]
                     continue
                 out.append(cur[:-1] + (list(stmts),))
                 break
